@@ -285,7 +285,7 @@ impl Compiler {
             Stmt::Assign { name, expr, kind, temp_decl } => {
                 self.emit(Ins::Assign { name: name.clone(), expr: expr.clone(), kind: kind.clone(), temp: *temp_decl });
             }
-            Stmt::Divert(t) => {
+            Stmt::Divert(t) | Stmt::InlineDivert(t) => {
                 self.emit(Ins::Divert(t.clone()));
             }
             Stmt::Tunnel(t) => {
@@ -360,7 +360,13 @@ impl Compiler {
                     if !c.fallback {
                         self.parts(&c.start);
                         self.parts(&c.end);
-                        self.emit(Ins::Eol);
+                        if matches!(c.body.first(), Some(Stmt::InlineDivert(_))) {
+                            // W2b: `* text -> k` on one line: no line end, the text (with the
+                            // space before the arrow) runs on into k's first line
+                            self.emit(Ins::Text(" ".into()));
+                        } else {
+                            self.emit(Ins::Eol);
+                        }
                     }
                     for s in &c.body {
                         self.stmt(s);
@@ -560,6 +566,14 @@ impl<'a> Vm<'a> {
                 // the label's knot/stitch are entered if flow was outside them
                 if let Some((Some(k), st)) = self.c.label_region.get(l).cloned() {
                     self.enter(s, &k, st.as_deref(), &from);
+                }
+                // W4b: a divert to a CHOICE's label runs that choice's content and counts as a visit
+                // of the choice (its label count grows, a once-only choice is used up); calibration:
+                // choices/divert-choice. (A gather's label is counted by its own CountLabel.)
+                if let Some((id, _)) = self.c.label_of_choice.iter().find(|(_, name)| *name == l) {
+                    *s.choice_counts.entry(*id).or_insert(0) += 1;
+                    *s.counts.entry(l.clone()).or_insert(0) += 1;
+                    s.last_turn.insert(l.clone(), s.turn);
                 }
                 Ok(pc)
             }
